@@ -217,12 +217,13 @@ fn sched_case(
     if scratch.len() < maxlen {
         scratch.resize(maxlen, 0.0);
     }
-    let res = catch_unwind(AssertUnwindSafe(|| -> Result<RunInfo, Fail> {
+    let res = catch_unwind(AssertUnwindSafe(|| -> Result<(RunInfo, Option<Fail>), Fail> {
         let vtx = mk_vtx(frames, false, 1, 1773400, pf);
         let mut player = Player::<RecAy>::new(vtx, rate, stereo);
         let mut pos = 0usize;
         let mut short_calls = 0;
         let mut zero_calls = 0;
+        let mut stream_fail: Option<Fail> = None;
         for (ci, &l) in lens.iter().enumerate() {
             let buf = &mut scratch[..l];
             for x in buf.iter_mut() {
@@ -247,8 +248,8 @@ fn sched_case(
             for i in 0..n {
                 let (el, er) = (m.left[pos + i], m.right[pos + i]);
                 let ok = if stereo { buf[2 * i] == el && buf[2 * i + 1] == er } else { buf[i] == el };
-                if !ok {
-                    return Err((
+                if !ok && stream_fail.is_none() {
+                    stream_fail = Some((
                         format!("C20:sched:stream:{}", tag),
                         format!(
                             "sample {} (call {}, offset {}): got {:?}, expected {:?} (integer part = chip sample index, fraction = register-file digest)",
@@ -269,9 +270,9 @@ fn sched_case(
             }
             pos += n;
         }
-        Ok(RunInfo { produced: pos, short_calls, zero_calls, writes: 0 })
+        Ok((RunInfo { produced: pos, short_calls, zero_calls, writes: 0 }, stream_fail))
     }));
-    let mut info = match res {
+    let (mut info, stream_fail) = match res {
         Ok(r) => r?,
         Err(p) => {
             return Err((
@@ -301,19 +302,22 @@ fn sched_case(
         if got == want {
             return None;
         }
-        let extra: Vec<_> = got.iter().filter(|x| !want.contains(x)).take(3).collect();
-        let missing: Vec<_> = want.iter().filter(|x| !got.contains(x)).take(3).collect();
-        let cls = if extra.iter().any(|x| x.1 == 13 && x.2 == 0xFF) {
+        let extra_all: Vec<_> = got.iter().filter(|x| !want.contains(x)).collect();
+        let missing_all: Vec<_> = want.iter().filter(|x| !got.contains(x)).collect();
+        // class: what kind of deviation from the schedule (judged on the complete difference)
+        let cls = if extra_all.iter().any(|x| x.1 == 13 && x.2 == 0xFF) {
             "r13-ff-written"
-        } else if missing.iter().any(|x| x.1 == 13) {
-            "r13-value-skipped"
-        } else if !extra.is_empty() && !missing.is_empty() && extra[0].1 == missing[0].1 && extra[0].2 == missing[0].2 {
+        } else if missing_all.iter().all(|x| x.1 == 13) && extra_all.is_empty() {
+            "r13-value-not-written"
+        } else if !extra_all.is_empty() && !missing_all.is_empty() {
             "wrong-sample-index"
-        } else if missing.is_empty() {
+        } else if missing_all.is_empty() {
             "extra-writes"
         } else {
             "missing-writes"
         };
+        let extra: Vec<_> = extra_all.iter().take(3).collect();
+        let missing: Vec<_> = missing_all.iter().take(3).collect();
         Some((
             format!("C20:sched:write-log:{}:{}", tag, cls),
             format!(
@@ -322,9 +326,10 @@ fn sched_case(
             ),
         ))
     });
-    match fail {
-        Some(f) => Err(f),
-        None => Ok(info),
+    match (fail, stream_fail) {
+        (Some(f), _) => Err(f),
+        (None, Some(f)) => Err(f),
+        (None, None) => Ok(info),
     }
 }
 
